@@ -298,7 +298,7 @@ func (f *For) Token() token.Token { return f.token }
 func (f *For) Literal() string { return f.token.Literal }
 
 func (f *For) IsSimpleLoop() bool {
-	return f.consequence != nil && f.init == nil && f.condition == nil
+	return f.consequence != nil && f.init == nil && f.condition == nil && f.post == nil
 }
 
 func (f *For) IsIteratorLoop() bool {
